@@ -43,7 +43,7 @@ func init() {
 			"when segmented headers are not allowed the transport delivers the first fixed-length flight in one read (the code's documented precondition)",
 			"identity-header depth is 0 or 1 (deeper chains need a SIP022 relay that the repository does not contain)",
 		},
-		ExpectProbes: []string{"c01.excess-payload", "c01.payload>=900", "c01.multi-chunk-write", "c01.leftover-read", "c01.path.readfrom", "c01.path.writeto", "c01.path.tunnel"},
+		ExpectProbes: []string{"c01.excess-payload", "c01.payload>=900", "c01.multi-chunk-write", "c01.leftover-read", "c01.path.readfrom", "c01.path.writeto", "c01.path.read-then-writeto", "c01.path.tunnel"},
 	})
 }
 
@@ -535,7 +535,34 @@ func reader(s *simrt.Sim, sd *side) {
 		}
 		s.Probe("c01.path.writeto")
 		cw := &checkWriter{s: s, sd: sd, off: sd.recvOff}
+		// Optionally switch copy paths on one connection: a few plain reads first (their buffers
+		// usually leave part of a chunk behind), then WriteTo for the rest of the stream.
+		pre := int64(0)
+		if sd.recvLen > 0 && s.GenChance(80) {
+			s.Probe("c01.path.read-then-writeto")
+			for k := 1 + s.Choose(3); k > 0 && cw.off < want; k-- {
+				b := make([]byte, util.Pick(s, []int{1, 17, 512, 4096}))
+				n, err := sd.c.Read(b)
+				if n > 0 {
+					if _, werr := cw.Write(b[:n]); werr != nil {
+						return
+					}
+					pre += int64(n)
+				}
+				if err == io.EOF {
+					if cw.off != want {
+						s.Fail("c01.early-eof{"+sd.name+"}", "%s saw end-of-stream after %d of %d stream bytes", sd.name, cw.off, want)
+					}
+					return
+				}
+				if err != nil {
+					s.Fail("c01.error{"+sd.name+"-read}", "%s Read at offset %d: %v", sd.name, cw.off, err)
+					return
+				}
+			}
+		}
 		n, err := wt.WriteTo(cw)
+		n += pre
 		if cw.fail {
 			return
 		}
